@@ -43,9 +43,13 @@ fn fire(sh: &Sh, c: usize, k: usize) {
     let w = sh.borrow().wakers.get(c).and_then(|v| v.get(k)).cloned();
     if let Some(w) = w { log(&format!("f{c}.{k}")); w.wake_by_ref(); }
 }
-struct Val(u64);
-impl Drop for Val { fn drop(&mut self) { log(&format!("V{}", self.0)); } }
-fn take(v: Val) -> u64 { let n = v.0; std::mem::forget(v); n }
+/// a value produced by a child: it owns a heap allocation, so that under Miri (thorough tier of C02) a double drop is a double free, a leaked value
+/// is a leaked allocation and a drop of an uninitialised slot is a read of uninitialised memory
+struct Val { b: Option<Box<u64>> }
+#[allow(non_snake_case)]
+fn Val(n: u64) -> Val { Val { b: Some(Box::new(n)) } }
+impl Drop for Val { fn drop(&mut self) { if let Some(b) = self.b.take() { log(&format!("V{}", *b)); } } }
+fn take(mut v: Val) -> u64 { *v.b.take().unwrap() }
 
 struct Child { id: usize, steps: Vec<Step>, k: usize, sh: Sh }
 impl Child {
@@ -275,13 +279,13 @@ fn run_case(line: &str) -> String {
     let sh: Sh = Rc::new(RefCell::new(Shared { wakers: vec![vec![]; if cont == "group" { 0 } else { n }], parents: vec![] }));
     let kids: Vec<Child> = scripts.into_iter().enumerate().map(|(i, s)| Child { id: i, steps: s, k: 0, sh: sh.clone() }).collect();
     #[cfg(any(feature = "fc-std", feature = "fc-alloc"))]
-    let mut grp: Option<groups::State> = if cont == "group" { Some(groups::State::new(comb, n)) } else { None };
+    let grp: Option<Rc<RefCell<groups::State>>> = if cont == "group" { Some(Rc::new(RefCell::new(groups::State::new(comb, n)))) } else { None };
     #[cfg(not(any(feature = "fc-std", feature = "fc-alloc")))]
-    let mut grp: Option<()> = None;
+    let grp: Option<()> = None;
     let is_group = cont == "group";
     let mut comb: Option<PollFn> = if is_group {
         #[cfg(any(feature = "fc-std", feature = "fc-alloc"))]
-        { let gp: *mut groups::State = grp.as_mut().unwrap(); Some(Box::new(move |cx: &mut Context<'_>| unsafe { (*gp).poll(cx) }) as PollFn) }
+        { let gp = grp.clone().unwrap(); Some(Box::new(move |cx: &mut Context<'_>| gp.borrow_mut().poll(cx)) as PollFn) }
         #[cfg(not(any(feature = "fc-std", feature = "fc-alloc")))]
         { None }
     } else { Some(build(comb, cont, kids)) };
@@ -299,12 +303,12 @@ fn run_case(line: &str) -> String {
                 match r {
                     Ok(None) => log("E:P"),
                     Ok(Some((s, fin))) => { finished = fin; log(&s); }
-                    Err(_) => { finished = true; log("d"); comb = None; #[cfg(any(feature = "fc-std", feature = "fc-alloc"))] { if let Some(g) = grp.as_mut() { g.g = None; } } log("E:X"); }
+                    Err(_) => { finished = true; log("d"); comb = None; #[cfg(any(feature = "fc-std", feature = "fc-alloc"))] { if let Some(g) = grp.as_ref() { g.borrow_mut().g = None; } } log("E:X"); }
                 }
             }
             b'f' => { let (c, k) = op[1..].split_once('.').unwrap(); log("o"); fire(&sh, c.parse().unwrap(), k.parse().unwrap()); }
-            b'd' => { log("d"); comb = None; #[cfg(any(feature = "fc-std", feature = "fc-alloc"))] { if let Some(g) = grp.as_mut() { g.g = None; } } }
-            _ if is_group => { #[cfg(any(feature = "fc-std", feature = "fc-alloc"))] { if comb.is_some() { grp.as_mut().unwrap().op(op, &sh); } } }
+            b'd' => { log("d"); comb = None; #[cfg(any(feature = "fc-std", feature = "fc-alloc"))] { if let Some(g) = grp.as_ref() { g.borrow_mut().g = None; } } }
+            _ if is_group => { #[cfg(any(feature = "fc-std", feature = "fc-alloc"))] { if comb.is_some() { grp.as_ref().unwrap().borrow_mut().op(op, &sh); } } }
             _ => panic!("bad op {op}"),
         }
     }
